@@ -29,7 +29,7 @@ def scen(prop, name, doc, config, ops, stack_kib=8192, fuel=None, note=""):
         "config": config,
         "threads": [{"stack_kib": stack_kib, "ops": ops, "preempt_ticks": []}],
         "sched": {"policy": "RoundRobin"},
-        "fuel": fuel or (1_000_000_000 if prop == "C01" else 100_000_000),
+        "fuel": fuel or (2_000_000_000 if prop == "C01" else 800_000_000),
         "corrupt_events": 0,
     }
     d = os.path.join(ROOT, prop)
